@@ -12,6 +12,8 @@
 package vsched
 
 import (
+	"crypto/sha256"
+	"encoding/hex"
 	"fmt"
 	"reflect"
 	"runtime"
@@ -73,6 +75,7 @@ type thread struct {
 	service bool // service threads may stay blocked in a receive at the end (idle), harness threads may not
 	panicv  interface{}
 	stack   string
+	nops    int // operations completed so far (program position of straight-line threads)
 }
 
 type vchan struct {
@@ -80,6 +83,7 @@ type vchan struct {
 	buf    []interface{}
 	closed bool
 	name   string
+	rcvrs  map[string]bool // threads that have received from it (who could unblock a sender)
 }
 
 type Timer struct {
@@ -108,6 +112,7 @@ type Alt struct {
 }
 
 type Point struct {
+	Key     string // global state key at this point ("" if state pruning is off)
 	Alts    []Alt
 	Running int  // thread that was running when the point was reached (-1 none)
 	RunEn   bool // the running thread is among the enabled alternatives (choosing another one is a preemption)
@@ -134,11 +139,16 @@ type Sched struct {
 	TickBudget int
 	// results
 	Deadlock    string
+	Cycle       string
 	Panics      []string
 	Diverged    string
 	MaxPoints   int
 	Truncated   bool
 	extWaiters  int
+	setupT      *thread
+	KeyFn       func() string // optional: harness-visible state for the global state key
+	UseKeys     bool
+	setup       bool // deterministic, unrecorded scheduling (scenario set-up): other threads first, then the caller
 	idleAtEnd   []string
 	harnessLeft []string
 }
@@ -157,6 +167,23 @@ func (s *Sched) vc(ch interface{}) (uintptr, *vchan) {
 	}
 	c, ok := s.chans[k]
 	if !ok {
+		defer func() {
+			if c := s.chans[k]; c != nil && strings.HasPrefix(c.name, "chan#") {
+				// unnamed: element type and the function that used it first (stable across unrelated edits)
+				et := reflect.TypeOf(ch).Elem().String()
+				n := fmt.Sprintf("chan(%s)@%s", et, site())
+				dup := 0
+				for _, o := range s.chans {
+					if o != c && strings.HasPrefix(o.name, n) {
+						dup++
+					}
+				}
+				if dup > 0 {
+					n += fmt.Sprintf("#%d", dup+1)
+				}
+				c.name = n
+			}
+		}()
 		c = &vchan{cap: reflect.ValueOf(ch).Cap()}
 		if ov, ok := s.capOv[k]; ok {
 			c.cap = ov
@@ -187,19 +214,24 @@ func Name(ch interface{}, name string) {
 	}
 }
 
+// site names the calling function of the implementation (no line numbers: signatures built from it must
+// survive unrelated edits).
 func site() string {
-	for skip := 2; skip < 12; skip++ {
-		_, f, l, ok := runtime.Caller(skip)
-		if !ok {
+	pcs := make([]uintptr, 16)
+	n := runtime.Callers(2, pcs)
+	fr := runtime.CallersFrames(pcs[:n])
+	for {
+		f, more := fr.Next()
+		if f.Function != "" && !strings.Contains(f.Function, "/vsched.") && !strings.HasPrefix(f.Function, "runtime.") {
+			name := f.Function
+			if i := strings.LastIndex(name, "/"); i >= 0 {
+				name = name[i+1:]
+			}
+			return name
+		}
+		if !more {
 			break
 		}
-		if strings.Contains(f, "/vsched/vsched.go") || strings.Contains(f, "/runtime/") || strings.HasSuffix(f, ".s") {
-			continue
-		}
-		if i := strings.LastIndex(f, "/"); i >= 0 {
-			f = f[i+1:]
-		}
-		return fmt.Sprintf("%s:%d", f, l)
 	}
 	return "?"
 }
@@ -347,10 +379,49 @@ func (s *Sched) cname(k uintptr) string {
 	return "nil-chan"
 }
 
+// stateKey: per-thread position (operations completed so far + pending operation), virtual channel contents,
+// timers, tickers, budgets and the harness-visible state. Two points with the same key are taken to have the
+// same futures (the pending operations and everything they can observe are equal).
+func (s *Sched) stateKey() string {
+	var sb strings.Builder
+	for _, t := range s.threads {
+		fmt.Fprintf(&sb, "%s:%d:%d", base(t.name), t.state, t.nops)
+		if t.op != nil {
+			fmt.Fprintf(&sb, ":%d:%s:%s:%v", t.op.kind, s.cname(t.op.ch), t.op.site, t.op.done)
+			for _, c := range t.op.cases {
+				fmt.Fprintf(&sb, ",%v%s", c.send, s.cname(c.ch))
+			}
+		}
+		sb.WriteString("|")
+	}
+	var ks []string
+	for _, c := range s.chans {
+		ks = append(ks, fmt.Sprintf("%s=%d/%v/%v", c.name, c.cap, c.closed, c.buf))
+	}
+	sort.Strings(ks)
+	sb.WriteString(strings.Join(ks, ";"))
+	for _, t := range s.timers {
+		fmt.Fprintf(&sb, "T%v", t.armed)
+	}
+	for _, t := range s.tickers {
+		fmt.Fprintf(&sb, "K%v", t.armed)
+	}
+	fmt.Fprintf(&sb, "f%dt%d", s.FireBudget, s.TickBudget)
+	if s.cur != nil {
+		fmt.Fprintf(&sb, "cur%d", s.cur.id)
+	}
+	if s.KeyFn != nil {
+		sb.WriteString(s.KeyFn())
+	}
+	h := sha256.Sum256([]byte(sb.String()))
+	return hex.EncodeToString(h[:10])
+}
+
 // ---- executing a transition --------------------------------------------------------------------------------
 
 func (s *Sched) complete(t *thread, v interface{}, ok bool, chosen int) {
 	t.op.done, t.op.rv, t.op.rok, t.op.chosen = true, v, ok, chosen
+	t.nops++
 }
 
 // doSend performs a send of thread t on ch (known to be enabled).
@@ -362,6 +433,10 @@ func (s *Sched) doSend(t *thread, ch uintptr, v interface{}, chosen int) {
 	}
 	if c.cap == 0 {
 		r := s.otherPending(t, false, ch)
+		if c.rcvrs == nil {
+			c.rcvrs = map[string]bool{}
+		}
+		c.rcvrs[base(r.name)] = true
 		// hand the value to the receiver
 		if r.op.kind == opRecv {
 			s.complete(r, v, true, -1)
@@ -382,6 +457,10 @@ func (s *Sched) doSend(t *thread, ch uintptr, v interface{}, chosen int) {
 
 func (s *Sched) doRecv(t *thread, ch uintptr, chosen int) {
 	c := s.chans[ch]
+	if c.rcvrs == nil {
+		c.rcvrs = map[string]bool{}
+	}
+	c.rcvrs[base(t.name)] = true
 	if len(c.buf) > 0 {
 		v := c.buf[0]
 		c.buf = c.buf[1:]
@@ -435,7 +514,9 @@ func (s *Sched) apply(a Alt) *thread {
 	switch o.kind {
 	case opStart, opYield:
 		o.done = true
+		t.nops++
 	case opClose:
+		t.nops++
 		c := s.chans[o.ch]
 		if c == nil || o.ch == 0 {
 			o.done, o.panicv = true, "close of nil channel"
@@ -475,6 +556,41 @@ func (s *Sched) step(self *thread) {
 			s.endOfExecution()
 			return
 		}
+		if s.setup {
+			// set-up phase: not part of the explored schedule. Let every other thread run until it blocks, then
+			// the set-up thread continues.
+			choice := 0
+			for k, a := range alts {
+				if a.Thread >= 0 && (s.setupT == nil || a.Thread != s.setupT.id) {
+					choice = k
+					break
+				}
+			}
+			if alts[choice].Thread < 0 {
+				// only timer/ticker transitions besides the set-up thread: skip them during set-up
+				found := false
+				for k, a := range alts {
+					if a.Thread >= 0 {
+						choice, found = k, true
+						break
+					}
+				}
+				if !found {
+					s.endOfExecution()
+					return
+				}
+			}
+			t := s.apply(alts[choice])
+			if t == nil {
+				continue
+			}
+			s.cur = t
+			if t == self {
+				return
+			}
+			t.wake <- struct{}{}
+			return
+		}
 		i := len(s.Points)
 		choice := 0
 		if i < len(s.prefix) {
@@ -491,7 +607,11 @@ func (s *Sched) step(self *thread) {
 			runID = s.cur.id
 			runEn = len(alts) > 0 && alts[0].Thread == runID
 		}
-		s.Points = append(s.Points, Point{Alts: alts, Running: runID, RunEn: runEn, Chosen: choice})
+		pt := Point{Alts: alts, Running: runID, RunEn: runEn, Chosen: choice}
+		if s.UseKeys {
+			pt.Key = s.stateKey()
+		}
+		s.Points = append(s.Points, pt)
 		a := alts[choice]
 		s.Trace = append(s.Trace, a.Desc)
 		if s.MaxPoints > 0 && len(s.Points) > s.MaxPoints {
@@ -523,6 +643,25 @@ func (s *Sched) point(o *op) *op {
 		runtime.Goexit()
 	}
 	t.op = o
+	// who listens on which channel (for the wait-for graph of a deadlock)
+	mark := func(ch uintptr) {
+		if c := s.chans[ch]; c != nil {
+			if c.rcvrs == nil {
+				c.rcvrs = map[string]bool{}
+			}
+			c.rcvrs[base(t.name)] = true
+		}
+	}
+	switch o.kind {
+	case opRecv:
+		mark(o.ch)
+	case opSelect:
+		for _, c := range o.cases {
+			if !c.send {
+				mark(c.ch)
+			}
+		}
+	}
 	if s.cur == t {
 		s.step(t)
 	}
@@ -643,6 +782,7 @@ func (s *Sched) endOfExecution() {
 	}
 	s.idleAtEnd = idle
 	s.harnessLeft = harness
+	s.Cycle = s.waitCycle()
 	if len(blockedSend) > 0 && s.Diverged == "" && !s.Truncated {
 		all := append(append([]string{}, blockedSend...), harness...)
 		for _, t := range s.threads {
@@ -665,6 +805,77 @@ func (s *Sched) endOfExecution() {
 		}
 	}
 	close(s.done)
+}
+
+// waitCycle: the wait-for cycle among threads blocked in a send (T -[chan @site]-> every thread that has
+// received from that channel), rendered from its smallest member; "" if there is none.
+func (s *Sched) waitCycle() string {
+	type edge struct{ to, label string }
+	g := map[string][]edge{}
+	for _, t := range s.threads {
+		if t.state != tRunnable || t.op == nil || t.op.done || t.op.kind != opSend {
+			continue
+		}
+		c := s.chans[t.op.ch]
+		if c == nil {
+			continue
+		}
+		lbl := stripNum(c.name) + " @" + t.op.site
+		for r := range c.rcvrs {
+			g[base(t.name)] = append(g[base(t.name)], edge{r, lbl})
+		}
+		if len(c.rcvrs) == 0 {
+			g[base(t.name)] = append(g[base(t.name)], edge{"(nobody)", lbl})
+		}
+	}
+	var names []string
+	for n := range g {
+		names = append(names, n)
+	}
+	sort.Strings(names)
+	for _, start := range names {
+		// depth-first search for a path back to start
+		var path []string
+		seen := map[string]bool{}
+		var dfs func(n string) bool
+		dfs = func(n string) bool {
+			for _, e := range g[n] {
+				if e.to == start {
+					path = append(path, fmt.Sprintf("%s -[%s]-> %s", n, e.label, e.to))
+					return true
+				}
+				if seen[e.to] || g[e.to] == nil {
+					continue
+				}
+				seen[e.to] = true
+				path = append(path, fmt.Sprintf("%s -[%s]->", n, e.label))
+				if dfs(e.to) {
+					return true
+				}
+				path = path[:len(path)-1]
+			}
+			return false
+		}
+		if dfs(start) {
+			return strings.Join(path, " ")
+		}
+	}
+	// no cycle: senders nobody will ever serve
+	var l []string
+	for _, n := range names {
+		for _, e := range g[n] {
+			l = append(l, fmt.Sprintf("%s -[%s]-> %s", n, e.label, e.to))
+		}
+	}
+	sort.Strings(l)
+	return strings.Join(l, " ; ")
+}
+
+func stripNum(n string) string {
+	if i := strings.LastIndex(n, "#"); i > 0 {
+		return n[:i]
+	}
+	return n
 }
 
 func hasSend(o *op) bool {
@@ -910,6 +1121,41 @@ func AwaitExternalReturn() {
 	}
 }
 
+// Setup runs f as a deterministic, unrecorded prologue: while it runs, every other thread is run until it
+// blocks before the calling thread continues, and none of these steps is a choice point of the exploration.
+// When f returns the other threads are run to quiescence once more.
+func Setup(f func()) {
+	s := cur
+	t := s.self()
+	s.mu.Lock()
+	s.setup, s.setupT = true, t
+	s.mu.Unlock()
+	f()
+	// quiescence: yield until the calling thread is the only one that can move
+	for i := 0; i < 100000; i++ {
+		s.mu.Lock()
+		t.op = &op{kind: opYield, site: "setup"}
+		others := 0
+		for _, a := range s.alts() {
+			if a.Thread >= 0 && a.Thread != t.id {
+				others++
+			}
+		}
+		t.op = nil
+		s.mu.Unlock()
+		if others == 0 {
+			break
+		}
+		s.point(&op{kind: opYield, site: "setup"})
+	}
+	s.mu.Lock()
+	s.setup, s.setupT = false, nil
+	s.mu.Unlock()
+}
+
+// SetKeyFn installs the harness-visible part of the global state key for the current execution.
+func SetKeyFn(f func() string) { cur.KeyFn = f }
+
 // Yield is a plain scheduling point for harness code.
 func Yield() { cur.point(&op{kind: opYield, site: site()}) }
 
@@ -918,6 +1164,7 @@ func Yield() { cur.point(&op{kind: opYield, site: site()}) }
 type Result struct {
 	Points    []Point
 	Trace     []string
+	Cycle     string
 	Deadlock  string
 	Panics    []string
 	Diverged  string
@@ -930,9 +1177,12 @@ type Result struct {
 }
 
 // Run executes body (which sets up the world and starts harness threads with GoHarness) under the choice prefix.
+// UseStateKeys switches the recording of global state keys on (set by the explorer).
+var UseStateKeys bool
+
 func Run(prefix []int, fireBudget, tickBudget, maxPoints int, body func()) Result {
 	s := &Sched{chans: map[uintptr]*vchan{}, capOv: map[uintptr]int{}, names: map[uintptr]string{}, prefix: prefix, done: make(chan struct{}),
-		FireBudget: fireBudget, TickBudget: tickBudget, MaxPoints: maxPoints}
+		FireBudget: fireBudget, TickBudget: tickBudget, MaxPoints: maxPoints, UseKeys: UseStateKeys}
 	cur = s
 	s.mu.Lock()
 	main := s.spawn("scenario", body, false)
@@ -952,7 +1202,7 @@ func Run(prefix []int, fireBudget, tickBudget, maxPoints int, body func()) Resul
 	time.Sleep(0)
 	s.mu.Lock()
 	defer s.mu.Unlock()
-	r := Result{Points: s.Points, Trace: s.Trace, Deadlock: s.Deadlock, Panics: s.Panics, Diverged: s.Diverged, Truncated: s.Truncated, Idle: s.idleAtEnd, Threads: len(s.threads)}
+	r := Result{Points: s.Points, Trace: s.Trace, Deadlock: s.Deadlock, Cycle: s.Cycle, Panics: s.Panics, Diverged: s.Diverged, Truncated: s.Truncated, Idle: s.idleAtEnd, Threads: len(s.threads)}
 	for _, t := range s.timers {
 		if t.armed {
 			r.Armed++
